@@ -46,9 +46,15 @@ type c11Cert struct {
 }
 
 func c11Make(label, cn string, sans ...string) c11Cert {
+	return c11MakeValid(label, cn, time.Now().Add(-time.Hour), time.Now().Add(24*time.Hour), sans...)
+}
+
+// c11MakeValid: a leaf with the given validity period (fabio presents what the source delivers; whether a client accepts
+// an expired certificate is the client's business)
+func c11MakeValid(label, cn string, notBefore, notAfter time.Time, sans ...string) c11Cert {
 	key, _ := ecdsa.GenerateKey(elliptic.P256(), rand.Reader)
 	tpl := &x509.Certificate{SerialNumber: big.NewInt(time.Now().UnixNano()), Subject: pkix.Name{CommonName: cn, Organization: []string{label}}, DNSNames: sans,
-		NotBefore: time.Now().Add(-time.Hour), NotAfter: time.Now().Add(24 * time.Hour), KeyUsage: x509.KeyUsageDigitalSignature, ExtKeyUsage: []x509.ExtKeyUsage{x509.ExtKeyUsageServerAuth}}
+		NotBefore: notBefore, NotAfter: notAfter, KeyUsage: x509.KeyUsageDigitalSignature, ExtKeyUsage: []x509.ExtKeyUsage{x509.ExtKeyUsageServerAuth}}
 	der, err := x509.CreateCertificate(rand.Reader, tpl, tpl, &key.PublicKey, key)
 	if err != nil {
 		panic(err)
@@ -120,7 +126,7 @@ func (s c11Source) Certificates() chan []tls.Certificate    { return s.ch }
 
 func TestVerifC11Select(t *testing.T) {
 	L := ev.Begin("C11", "c11-select", "exploration",
-		"every ordered list of 1..3 certificates from 8 generated leafs (CN only, SAN only, CN repeated in SANs, CN beside other SANs, wildcard CN / SAN, unrelated) x 13 requested server names (absent, exact, upper case, trailing dot, single-label wildcard match, two labels deep, unrelated) x strict/non-strict, through getCertificate on the built store and through a real in-memory TLS handshake against cert.TLSConfig; oracle: exact -> single-label wildcard -> first / none. non-trivial = set with >=2 certificates")
+		"every ordered list of 1..3 certificates from 10 generated leafs (expired and not yet valid ones included, CN only, SAN only, CN repeated in SANs, CN beside other SANs, wildcard CN / SAN, unrelated) x 13 requested server names (absent, exact, upper case, trailing dot, single-label wildcard match, two labels deep, unrelated) x strict/non-strict, through getCertificate on the built store and through a real in-memory TLS handshake against cert.TLSConfig; oracle: exact -> single-label wildcard -> first / none. non-trivial = set with >=2 certificates")
 	pool := []c11Cert{
 		c11Make("c-foo", "foo.com"),
 		c11Make("c-wild", "", "*.foo.com"),
@@ -130,8 +136,10 @@ func TestVerifC11Select(t *testing.T) {
 		c11Make("c-wildbar", "*.bar.org", "*.bar.org"),
 		c11Make("c-cn+san", "cn.mixed.example", "san.mixed.example"), // the common name is not repeated among the SANs
 		c11Make("c-wildcn+san", "*.wcn.example", "plain.wcn.example"),
+		c11MakeValid("c-expired", "expired.example", time.Now().Add(-48*time.Hour), time.Now().Add(-24*time.Hour), "expired.example", "*.expired.example"),
+		c11MakeValid("c-future", "future.example", time.Now().Add(24*time.Hour), time.Now().Add(48*time.Hour), "future.example"),
 	}
-	names := []string{"", "foo.com", "FOO.COM", "foo.com.", "a.foo.com", "x.foo.com", "x.y.foo.com", "other.net", "www.bar.org", "cn.only.example", "cn.mixed.example", "san.mixed.example", "x.wcn.example"}
+	names := []string{"", "foo.com", "FOO.COM", "foo.com.", "a.foo.com", "x.foo.com", "x.y.foo.com", "other.net", "www.bar.org", "cn.only.example", "cn.mixed.example", "san.mixed.example", "x.wcn.example", "expired.example", "a.expired.example", "future.example"}
 	var sets [][]int
 	var rec func(cur []int)
 	rec = func(cur []int) {
